@@ -30,7 +30,7 @@ type et_type =
 type et_err = { et_trz : bool; et_typ : et_type; et_trace : bool;
                 et_sad : bool }
 
-type et_env = { et_flag : bool; et_deleted : bool }
+type et_env = { et_flag : bool; et_deleted : bool; et_window : bool }
 
 type et_bexp =
 | BTypeIs of et_type
@@ -59,6 +59,7 @@ type et_cond =
 | CPred of et_pname
 | CFlag
 | CDeleted
+| CWindow
 | CVar of et_var
 | CConst of bool
 | CNot of et_cond
@@ -76,6 +77,7 @@ type et_stmt =
 | TSetStr of et_var * et_word
 | TDelete
 | TSend of et_sexp * bool
+| TSwitchWriter
 | TExit of bool
 | TIf of et_cond * et_stmt list * et_stmt list
 | TReturn
@@ -84,13 +86,13 @@ type et_stmt =
 type et_act =
 | AClean
 | ADelete
-| ASend of et_word * bool
+| ASend of et_word * bool * bool
 | AExit of bool
 
 type et_state = { es_bools : (et_var * bool) list;
                   es_strs : (et_var * et_word) list; es_deleted_known : 
-                  bool; es_acts : et_act list; es_ret : bool; es_ok : 
-                  bool }
+                  bool; es_tunnel : bool; es_acts : et_act list;
+                  es_ret : bool; es_ok : bool }
 
 val et_init : et_state
 
